@@ -103,7 +103,7 @@ class TLCResult:
             self.errors.append(m.group(1))
         # -coverage: "<Action line 12, col 1 to line 14, col 20 of module M>: 10:20"
         for m in re.finditer(
-            r"^<(\w+) line \d+, col \d+ to line \d+, col \d+ of module (\w+)>: (\d+):(\d+)",
+            r"^<(\w+) line \d+, col \d+ to line \d+, col \d+ of module (\w+)(?: \([\d ]+\))?>: (\d+):(\d+)",
             self.out,
             re.M,
         ):
@@ -427,7 +427,8 @@ class Ctx:
         failing = {}
         chunks = [records] if not chunk else [records[i:i + chunk] for i in range(0, len(records), chunk)]
         for ci, part in enumerate(chunks):
-            tf = self.work / f"trace_{module}_{ci}.ndjson"
+            self._nval = getattr(self, "_nval", 0) + 1
+            tf = self.work / f"trace_{module}_{self._nval}.ndjson"
             with tf.open("w") as fh:
                 for rec in part:
                     fh.write(json.dumps(rec, separators=(",", ":")) + "\n")
